@@ -204,3 +204,106 @@ Qed.
 (* every write is of an emitted slice: nothing outside the handed-out slices is ever written *)
 Lemma writes_are_slices c sched : forall a b, In (a, b) (wdone (run c sched)) -> In (a, b) (slices (run c sched)).
 Proof. exact (proj1 (invw_run c sched)). Qed.
+
+(* ---------- every handed-out slice is written exactly once ---------- *)
+Lemma NoDup_app_intro_one {A} (l : list A) x : NoDup l -> ~ In x l -> NoDup (l ++ [x]).
+Proof.
+  induction l as [|y l IH]; cbn; intros Hn Hx; [constructor; [intros []|constructor]|].
+  inversion Hn as [|? ? Hy Hl]; subst. constructor.
+  - rewrite in_app_iff. cbn. intros [H|[H|[]]]; [contradiction|]. apply Hx. left. symmetry. exact H.
+  - apply IH; [exact Hl|]. intros H. apply Hx. right. exact H.
+Qed.
+
+Lemma ztiles_NoDup from l to : ztiles from l to -> NoDup l.
+Proof.
+  revert from; induction l as [|[a b] l IH]; cbn; intros from H; [constructor|].
+  destruct H as (-> & Hab & H). constructor; [|exact (IH _ H)].
+  intros Hin. pose proof (ztiles_inside _ _ _ H) as Hall. rewrite Forall_forall in Hall.
+  specialize (Hall _ Hin). cbn in Hall. lia.
+Qed.
+
+Definition InvX (s : state) : Prop :=
+  NoDup (wdone s) /\
+  (forall w a b, pcs s w = PWork a b -> ~ In (a, b) (wdone s)) /\
+  (forall w w' a b, pcs s w = PWork a b -> pcs s w' = PWork a b -> w = w').
+
+Lemma invx_init c : InvX (init c).
+Proof. unfold InvX, init; cbn. repeat split; [constructor|intros; discriminate|intros; discriminate]. Qed.
+
+Lemma invx_local s w p nd st lk : InvX s ->
+  (forall a b, p <> PWork a b) ->
+  InvX (mk_state nd st lk (upd (pcs s) w p) (out s) (wdone s)).
+Proof.
+  intros (H4 & H5 & H6) Hnew. unfold InvX; cbn. repeat split; [exact H4| |].
+  - intros v a b Hv. destruct (Nat.eq_dec v w) as [->|Hne];
+      [rewrite upd_same in Hv; destruct (Hnew a b Hv)|rewrite upd_other in Hv by exact Hne; exact (H5 v a b Hv)].
+  - intros v v' a b Hv Hv'.
+    destruct (Nat.eq_dec v w) as [->|Hne]; [rewrite upd_same in Hv; destruct (Hnew a b Hv)|].
+    destruct (Nat.eq_dec v' w) as [->|Hne']; [rewrite upd_same in Hv'; destruct (Hnew a b Hv')|].
+    rewrite upd_other in Hv, Hv' by assumption. exact (H6 v v' a b Hv Hv').
+Qed.
+
+Lemma invx_step c s w : Inv c s -> InvW s -> InvX s -> InvX (step c s w).
+Proof.
+  intros Hi (W1 & W2 & W3) Hx. unfold step, set_pc. destruct (pcs s w) eqn:Epc.
+  - destruct (lock s); [exact Hx|]. apply invx_local; [exact Hx|discriminate].
+  - apply invx_local; [exact Hx|discriminate].
+  - apply invx_local; [exact Hx|discriminate].
+  - destruct (nd =? 0); [|destruct (nd <? chunk_of c nd)]; (apply invx_local; [exact Hx|discriminate]).
+  - apply invx_local; [exact Hx|discriminate].
+  - (* PRelease: the new slice (s0, s1) was never emitted before *)
+    destruct Hi as (e & Ht & He & Hl & _ & Hm).
+    assert (lock s = Some w) as El by (apply Hl; rewrite Epc; reflexivity).
+    rewrite El, Epc in Hm. destruct Hm as (-> & Hlt & _ & _).
+    assert (Hfresh : ~ In (s0, s1) (slices s)).
+    { intros Hin. pose proof (ztiles_inside _ _ _ Ht) as Hall. rewrite Forall_forall in Hall.
+      specialize (Hall _ Hin). cbn in Hall. lia. }
+    destruct Hx as (H4 & H5 & H6). unfold InvX; cbn. repeat split; [exact H4| |].
+    + intros v a b Hv. destruct (Nat.eq_dec v w) as [->|Hne].
+      * rewrite upd_same in Hv. inversion Hv; subst. intros Hin. apply Hfresh. exact (W1 _ _ Hin).
+      * rewrite upd_other in Hv by exact Hne. exact (H5 v a b Hv).
+    + intros v v' a b Hv Hv'.
+      destruct (Nat.eq_dec v w) as [->|Hne]; destruct (Nat.eq_dec v' w) as [->|Hne']; try reflexivity.
+      * rewrite upd_same in Hv. inversion Hv; subst. rewrite upd_other in Hv' by exact Hne'.
+        destruct (Hfresh (W3 v' _ _ Hv')).
+      * rewrite upd_same in Hv'. inversion Hv'; subst. rewrite upd_other in Hv by exact Hne.
+        destruct (Hfresh (W3 v _ _ Hv)).
+      * rewrite upd_other in Hv, Hv' by assumption. exact (H6 v v' a b Hv Hv').
+  - (* PWork: the pending slice is written, for the first time *)
+    destruct Hx as (H4 & H5 & H6). unfold InvX; cbn. repeat split.
+    + apply NoDup_app_intro_one; [exact H4|exact (H5 w s0 s1 Epc)].
+    + intros v a b Hv. destruct (Nat.eq_dec v w) as [->|Hne]; [rewrite upd_same in Hv; discriminate|].
+      rewrite upd_other in Hv by exact Hne. intros Hin. apply in_app_or in Hin. destruct Hin as [Hin|[Heq|[]]].
+      * exact (H5 v a b Hv Hin).
+      * inversion Heq; subst. apply Hne. exact (H6 v w a b Hv Epc).
+    + intros v v' a b Hv Hv'.
+      destruct (Nat.eq_dec v w) as [->|Hne]; [rewrite upd_same in Hv; discriminate|].
+      destruct (Nat.eq_dec v' w) as [->|Hne']; [rewrite upd_same in Hv'; discriminate|].
+      rewrite upd_other in Hv, Hv' by assumption. exact (H6 v v' a b Hv Hv').
+  - exact Hx.
+Qed.
+
+Lemma invx_run c sched : wf c -> InvX (run c sched).
+Proof.
+  intros Hwf. unfold run, run_from.
+  assert (H : Inv c (init c) /\ InvW (init c) /\ InvX (init c))
+    by (split; [apply inv_init; exact Hwf|split; [apply invw_init|apply invx_init]]).
+  revert H. generalize (init c).
+  induction sched as [|w sched IH]; cbn; intros s (Hi & Hw & Hx); [exact Hx|].
+  apply IH. split; [apply inv_step; assumption|split; [apply invw_step; exact Hw|apply invx_step; assumption]].
+Qed.
+
+(* once the nw workers have returned, the completed writes are a permutation of the handed-out slices *)
+Lemma writes_exactly_once c nw sched : wf c -> (1 <= nw)%nat -> workers_below nw sched ->
+  all_done nw (run c sched) -> Permutation (slices (run c sched)) (wdone (run c sched)).
+Proof.
+  intros Hwf Hnw Hb Hall.
+  destruct (cover_all_done c nw sched Hwf Hnw Hb Hall) as (_ & _ & Ht).
+  destruct (invw_run c sched) as (H1 & H2 & _). destruct (invx_run c sched Hwf) as (H4 & _ & _).
+  apply NoDup_Permutation; [exact (ztiles_NoDup _ _ _ Ht)|exact H4|].
+  intros [a b]. split; [|apply H1].
+  intros Hin. destruct (H2 a b Hin) as [Hd|(v & Hv)]; [exact Hd|].
+  destruct (Nat.lt_ge_cases v nw) as [Hlt|Hge].
+  - rewrite (Hall v Hlt) in Hv. discriminate.
+  - unfold run in Hv. rewrite (untouched_idle c nw sched (init c) Hb v Hge) in Hv. discriminate.
+Qed.
